@@ -88,7 +88,7 @@ Proof.
       { intros HH. inversion HH; subst; sim. repeat split; try congruence; auto.
         - exists b. sim. cbn [ret]. rewrite Eb, app_nil_r. split; [reflexivity | exact Es].
         - intros b0 [= <-]. lia. }
-      destruct (deadline (spol sc) tmo ts (clk s1)); [apply RET, H | | apply RET, H].
+      destruct (deadline _ tmo ts (clk s1)); [apply RET, H | | apply RET, H].
       destruct (late_read (spol sc)); [apply RET, H | apply TMO, H]. }
     assert (REC : forall s'' r'', ser_read_loop sc f n tmo ts (set_buf s1 (buf s1 ++ b)) = (s'', r'') ->
       is_open s'' = is_open s /\ smoved s s'' (ret r'') /\
@@ -97,7 +97,7 @@ Proof.
     { intros s'' r'' HH. apply IH in HH; [|sim; lia]. sim.
       destruct HH as (Ho' & Hm & Hrest). split; [congruence|]. split; [|exact Hrest].
       apply (smoved_recv s (set_buf s1 (buf s1 ++ b)) s'' b); sim; [now rewrite Eb | exact Es | exact Hm]. }
-    destruct (deadline (spol sc) tmo ts (clk s1)).
+    destruct (deadline _ tmo ts (clk s1)).
     + destruct sil.
       * inversion H; subst; sim. repeat split; try congruence; auto.
       * apply REC, H.
@@ -149,7 +149,7 @@ Lemma ser_ru_loop_spec sc term : forall fuel tmo ts tr s s' r,
 Proof.
   induction fuel as [|f IH]; intros tmo ts tr s s' r NO H; cbn [ser_ru_loop] in H.
   - inversion H; subst. repeat split; try congruence. apply smoved_refl; reflexivity.
-  - destruct (tr_passed (spol sc) tr).
+  - destruct (tr_passed _ tr).
     { inversion H; subst. repeat split; try congruence. apply smoved_refl; reflexivity. }
     destruct (ser_read (tick sc) 1 s) as [[s1 b] sil] eqn:Er.
     apply ser_read_spec in Er as (Eo & Eb & Elen & Es & _). sim.
@@ -163,7 +163,7 @@ Proof.
       assert (RET : (set_buf (set_buf s1 (buf s1 ++ b)) [], RBytes (buf s1 ++ b)) = (s', r) ->
         is_open s' = is_open s /\ smoved s s' (ret r) /\ (forall b, r = RBytes b -> shortest term b) /\
         r <> RNone /\ r <> RInvalid /\ r <> REof /\ r <> RRuntime /\ r <> RValue);
-      [| destruct (deadline (spol sc) tmo ts (clk s1)); [apply RET, H | | apply RET, H];
+      [| destruct (deadline _ tmo ts (clk s1)); [apply RET, H | | apply RET, H];
          destruct (late_ru (spol sc)); [apply RET, H | apply TMO, H] ].
       intros HH. clear H TMO.
       inversion HH; subst; sim. repeat split; try congruence.
